@@ -245,7 +245,9 @@ pub fn run(tier: &str, seed: u64) -> Report {
       if w.opts.skip_dynamic_deps {
         triggers.push("prune-keeps-target-of-skipped-dynamic-import"); // F17
       }
-      if (0..w.specs.len()).any(|i| on_redirect_cycle(w.specs[i].as_str())) {
+      // a redirect cycle, or a chain with more hops than the loader's limit: where the count runs out
+      // depends on where the build enters the chain
+      if (0..w.specs.len()).any(|i| on_redirect_cycle(w.specs[i].as_str())) || crate::world::redirect_budget_exceedable(&w) {
         triggers.push("too-many-redirects-entry-depends-on-entry-point"); // F18
       }
       let cls_err = |m: &BTreeMap<String, String>| {
